@@ -386,7 +386,9 @@ OnQ(mm, e) ==
       \* ... and when that unwarranted reaction ends the connection, the requests in progress on it are lost
       inProgress == {sid \in DOMAIN mm.s : mm.s[sid].q \in {"open", "hcr"} /\ mm.s[sid].hasReq /\ ~mm.s[sid].refused /\ ~mm.s[sid].errSeen
                                             /\ ~mm.s[sid].rstByPeer /\ mm.s[sid].res = 0}
-      c0b == FlagIf(c0, judged /\ ~rOK /\ connErrNow /\ ~(\E x \in Tolerate(al) : x.k = "cerr") /\ inProgress # {},
+      \* (the frame that was answered this way may itself be (part of) a request)
+      own == IF f.ty \in {T_HEADERS, T_CONT, T_DATA} /\ f.sid # 0 /\ f.sid % 2 = 1 THEN {f.sid} ELSE {}
+      c0b == FlagIf(c0, judged /\ ~rOK /\ connErrNow /\ ~(\E x \in Tolerate(al) : x.k = "cerr") /\ inProgress \cup own # {},
                     "C01:requests-in-progress-lost-to-a-connection-teardown-the-peer-did-not-cause")
       c1 == FlagIf(c0b, judged /\ obs.goaway # {} /\ ~(\E x \in Tolerate(al) : x.k = "cerr"), "C10:goaway-without-connection-offence")
       t1 == IF mm.hasCur THEN Transition(c1, f, errOnSid, connErrNow) ELSE c1
